@@ -315,9 +315,11 @@ fn validate_headers(headers: Headers) -> Result<Vec<HashAlgorithm>> {
 /// The form of a dash-escaped text that signatures are calculated over:
 /// dash escapes and trailing whitespace removed, line endings normalized to "\r\n".
 fn signed_text_of(csf_encoded_text: &str) -> String {
-    let unescaped = dash_unescape_and_trim(csf_encoded_text);
+    // Normalize the line endings first: removing trailing whitespace must not be able to turn
+    // a lone CR inside a line into part of a line ending ("a\r \n" is not the line "a").
+    let normalized = normalize_lines(csf_encoded_text, LineBreak::Crlf);
 
-    normalize_lines(&unescaped, LineBreak::Crlf).to_string()
+    dash_unescape_and_trim(&normalized)
 }
 
 /// Dash escape the given text.
